@@ -64,7 +64,7 @@ func checks() []Check {
 			Assumptions: append([]string{"sequentially consistent interleavings; fairness rotation after 60 consecutive steps", "epoll/eventfd behaviour is that of this kernel; enabledness of epoll_wait is decided by poll(2) on the epoll descriptor"}, commonAssumptions...),
 			Units: []Unit{
 				{Name: "poller-default", Pkg: "pkg/netpoll", Test: "TestMC_C03", Instrument: true, InstrPkgs: []string{"pkg/netpoll", "pkg/queue"}, Shards: 12, ShardsThorough: 15, BudgetQuick: 200, BudgetThorough: 1500, Env: []string{"GOMAXPROCS=2"}},
-				{Name: "engine-seam", Test: "TestMC_C03seam", Pkg: ".", Tags: "verifmc", Instrument: true, Shards: 16, BudgetQuick: 150, BudgetThorough: 1500, Env: []string{"GOMAXPROCS=2"}}, {Name: "engine-seam-poll_opt", Test: "TestMC_C03seam", Pkg: ".", Tags: "verifmc,poll_opt", Tier: "thorough", Instrument: true, Shards: 16, BudgetQuick: 150, BudgetThorough: 1500, Env: []string{"GOMAXPROCS=2"}}, {Name: "engine-seam-poll_opt-quick", Test: "TestMC_C03seam", Pkg: ".", Tags: "verifmc,poll_opt", Instrument: true, Shards: 8, BudgetQuick: 150, BudgetThorough: 1500, Env: []string{"GOMAXPROCS=2", "MC_LIGHT=1"}}, {Name: "engine-seam-gc_opt-quick", Test: "TestMC_C03seam", Pkg: ".", Tags: "verifmc,gc_opt", Instrument: true, Shards: 8, BudgetQuick: 150, BudgetThorough: 1500, Env: []string{"GOMAXPROCS=2", "MC_LIGHT=1"}}, {Name: "engine-seam-gc_opt", Test: "TestMC_C03seam", Pkg: ".", Tags: "verifmc,gc_opt", Tier: "thorough", Instrument: true, Shards: 16, BudgetQuick: 150, BudgetThorough: 1500, Env: []string{"GOMAXPROCS=2"}},
+				{Name: "engine-seam", Test: "TestMC_C03seam", Pkg: ".", Tags: "verifmc", Instrument: true, Shards: 16, BudgetQuick: 150, BudgetThorough: 1500, Env: []string{"GOMAXPROCS=2"}}, {Name: "engine-seam-poll_opt", Test: "TestMC_C03seam", Pkg: ".", Tags: "verifmc,poll_opt", Tier: "thorough", Instrument: true, Shards: 16, BudgetQuick: 150, BudgetThorough: 600, Env: []string{"GOMAXPROCS=2"}}, {Name: "engine-seam-poll_opt-quick", Test: "TestMC_C03seam", Pkg: ".", Tags: "verifmc,poll_opt", Instrument: true, Shards: 8, BudgetQuick: 150, BudgetThorough: 1500, Env: []string{"GOMAXPROCS=2", "MC_LIGHT=1"}}, {Name: "engine-seam-gc_opt-quick", Test: "TestMC_C03seam", Pkg: ".", Tags: "verifmc,gc_opt", Instrument: true, Shards: 8, BudgetQuick: 150, BudgetThorough: 1500, Env: []string{"GOMAXPROCS=2", "MC_LIGHT=1"}}, {Name: "engine-seam-gc_opt", Test: "TestMC_C03seam", Pkg: ".", Tags: "verifmc,gc_opt", Tier: "thorough", Instrument: true, Shards: 16, BudgetQuick: 150, BudgetThorough: 600, Env: []string{"GOMAXPROCS=2"}},
 				{Name: "poller-poll_opt", Pkg: "pkg/netpoll", Tags: "poll_opt", Test: "TestMC_C03", Instrument: true, InstrPkgs: []string{"pkg/netpoll", "pkg/queue"}, Shards: 12, ShardsThorough: 15, BudgetQuick: 200, BudgetThorough: 1500, Env: []string{"GOMAXPROCS=2"}},
 			},
 		},
@@ -91,7 +91,7 @@ func checks() []Check {
 			Rule:        "policy part: round-robin for every N in 1..256 (3N accepts), least-connections as explicit-state BFS over accept/close sequences on fake loops with real connection counters plus every count vector in {0..3}^N, source-addr-hash for every N in 1..256 over an address alphabet; distinct_nontrivial = distinct (policy, N, count-vector/address) cases",
 			Assumptions: append([]string{"fake event loops: only the registry counters are real; the live clause (callbacks run on the assigned loop) is checked by the engine-level unit"}, commonAssumptions...),
 			Units: []Unit{{Name: "policy", Pkg: ".", Test: "TestMC_C15", Weight: 8},
-				{Name: "live", Test: "TestMC_C15live", Pkg: ".", Tags: "verifmc", Instrument: true, Shards: 16, BudgetQuick: 150, BudgetThorough: 1500, Env: []string{"GOMAXPROCS=2"}}, {Name: "live-poll_opt", Test: "TestMC_C15live", Pkg: ".", Tags: "verifmc,poll_opt", Tier: "thorough", Instrument: true, Shards: 16, BudgetQuick: 150, BudgetThorough: 1500, Env: []string{"GOMAXPROCS=2"}}, {Name: "live-gc_opt", Test: "TestMC_C15live", Pkg: ".", Tags: "verifmc,gc_opt", Tier: "thorough", Instrument: true, Shards: 16, BudgetQuick: 150, BudgetThorough: 1500, Env: []string{"GOMAXPROCS=2"}}},
+				{Name: "live", Test: "TestMC_C15live", Pkg: ".", Tags: "verifmc", Instrument: true, Shards: 16, BudgetQuick: 150, BudgetThorough: 1500, Env: []string{"GOMAXPROCS=2"}}, {Name: "live-poll_opt", Test: "TestMC_C15live", Pkg: ".", Tags: "verifmc,poll_opt", Tier: "thorough", Instrument: true, Shards: 16, BudgetQuick: 150, BudgetThorough: 600, Env: []string{"GOMAXPROCS=2"}}, {Name: "live-gc_opt", Test: "TestMC_C15live", Pkg: ".", Tags: "verifmc,gc_opt", Tier: "thorough", Instrument: true, Shards: 16, BudgetQuick: 150, BudgetThorough: 600, Env: []string{"GOMAXPROCS=2"}}},
 		},
 		{
 			ID: "C16", Level: "exploration",
@@ -104,19 +104,19 @@ func checks() []Check {
 			Rule:        "conversion part: bounded-exhaustive enumeration of {tcp,udp,ip} x IP alphabet x all 65536 ports x zone alphabet, unix names x networks, and the zone index round trip for every index of a range; distinct_nontrivial = distinct inputs; live part (RemoteAddr/LocalAddr at every callback under churn) by the engine-level unit",
 			Assumptions: append([]string{"zones are compared by the interface index they denote on this host (lo=1, eth0=4); indices >= 2^24-1 are outside the domain (the decimal parser caps there)", "a nil IP and the unspecified address are the same address"}, commonAssumptions...),
 			Units: []Unit{{Name: "conv", Pkg: "pkg/socket", Test: "TestMC_C17conv", Weight: 2},
-				{Name: "live", Test: "TestMC_C17live", Pkg: ".", Tags: "verifmc", Instrument: true, Shards: 16, BudgetQuick: 150, BudgetThorough: 1500, Env: []string{"GOMAXPROCS=2"}}, {Name: "live-poll_opt", Test: "TestMC_C17live", Pkg: ".", Tags: "verifmc,poll_opt", Tier: "thorough", Instrument: true, Shards: 16, BudgetQuick: 150, BudgetThorough: 1500, Env: []string{"GOMAXPROCS=2"}}, {Name: "live-gc_opt", Test: "TestMC_C17live", Pkg: ".", Tags: "verifmc,gc_opt", Tier: "thorough", Instrument: true, Shards: 16, BudgetQuick: 150, BudgetThorough: 1500, Env: []string{"GOMAXPROCS=2"}}},
+				{Name: "live", Test: "TestMC_C17live", Pkg: ".", Tags: "verifmc", Instrument: true, Shards: 16, BudgetQuick: 150, BudgetThorough: 1500, Env: []string{"GOMAXPROCS=2"}}, {Name: "live-poll_opt", Test: "TestMC_C17live", Pkg: ".", Tags: "verifmc,poll_opt", Tier: "thorough", Instrument: true, Shards: 16, BudgetQuick: 150, BudgetThorough: 600, Env: []string{"GOMAXPROCS=2"}}, {Name: "live-gc_opt", Test: "TestMC_C17live", Pkg: ".", Tags: "verifmc,gc_opt", Tier: "thorough", Instrument: true, Shards: 16, BudgetQuick: 150, BudgetThorough: 600, Env: []string{"GOMAXPROCS=2"}}},
 		},
 		{
 			ID: "C18", Level: "fault_enumeration",
 			Rule:        "exhaustive single-fault (and, thorough, double-fault / fault+schedule-deviation) enumeration on the real engine: for every call index of every I/O-path system-call site the shim offers each errno of a realistic set as a deviation; an execution with one injected fault is one evaluation; distinct_nontrivial = distinct observed (callback multiset, peer byte counts) outcomes; oracle: no panic, engine serves a fresh probe connection, the non-victim connection completes its checked echo exchange and closes normally, the victim sees exactly one OnClose with a non-nil error iff it was opened, its bytes are a prefix of the echo, its descriptor is released, retryable conditions change nothing",
 			Assumptions: append([]string{"errno menu per site: read ECONNRESET/ETIMEDOUT/EAGAIN(LT); write,writev EPIPE/ECONNRESET/EAGAIN(LT); accept4 EINTR/ECONNABORTED/ECONNRESET; epoll_ctl add ENOMEM, mod ENOENT/ENOMEM, del ENOENT/EBADF; close EINTR (after really closing); epoll_wait EINTR", "faults on the eventfd and on listeners' registration are not injected"}, commonAssumptions...),
-			Units:       []Unit{{Name: "faults", Pkg: ".", Tags: "verifmc", Test: "TestMC_C18", Instrument: true, Shards: 16, BudgetQuick: 150, BudgetThorough: 1500, Env: []string{"GOMAXPROCS=2"}}, {Name: "faults-poll_opt", Pkg: ".", Tags: "verifmc,poll_opt", Tier: "thorough", Test: "TestMC_C18", Instrument: true, Shards: 16, BudgetQuick: 150, BudgetThorough: 1500, Env: []string{"GOMAXPROCS=2"}}, {Name: "faults-poll_opt-quick", Pkg: ".", Tags: "verifmc,poll_opt", Test: "TestMC_C18", Instrument: true, Shards: 8, BudgetQuick: 150, BudgetThorough: 1500, Env: []string{"GOMAXPROCS=2", "MC_LIGHT=1"}}, {Name: "faults-gc_opt-quick", Pkg: ".", Tags: "verifmc,gc_opt", Test: "TestMC_C18", Instrument: true, Shards: 8, BudgetQuick: 150, BudgetThorough: 1500, Env: []string{"GOMAXPROCS=2", "MC_LIGHT=1"}}, {Name: "faults-gc_opt", Pkg: ".", Tags: "verifmc,gc_opt", Tier: "thorough", Test: "TestMC_C18", Instrument: true, Shards: 16, BudgetQuick: 150, BudgetThorough: 1500, Env: []string{"GOMAXPROCS=2"}}},
+			Units:       []Unit{{Name: "faults", Pkg: ".", Tags: "verifmc", Test: "TestMC_C18", Instrument: true, Shards: 16, BudgetQuick: 150, BudgetThorough: 1500, Env: []string{"GOMAXPROCS=2"}}, {Name: "faults-poll_opt", Pkg: ".", Tags: "verifmc,poll_opt", Tier: "thorough", Test: "TestMC_C18", Instrument: true, Shards: 16, BudgetQuick: 150, BudgetThorough: 600, Env: []string{"GOMAXPROCS=2"}}, {Name: "faults-poll_opt-quick", Pkg: ".", Tags: "verifmc,poll_opt", Test: "TestMC_C18", Instrument: true, Shards: 8, BudgetQuick: 150, BudgetThorough: 1500, Env: []string{"GOMAXPROCS=2", "MC_LIGHT=1"}}, {Name: "faults-gc_opt-quick", Pkg: ".", Tags: "verifmc,gc_opt", Test: "TestMC_C18", Instrument: true, Shards: 8, BudgetQuick: 150, BudgetThorough: 1500, Env: []string{"GOMAXPROCS=2", "MC_LIGHT=1"}}, {Name: "faults-gc_opt", Pkg: ".", Tags: "verifmc,gc_opt", Tier: "thorough", Test: "TestMC_C18", Instrument: true, Shards: 16, BudgetQuick: 150, BudgetThorough: 600, Env: []string{"GOMAXPROCS=2"}}},
 		},
 		{
 			ID: "C19", Level: "model_checking",
 			Rule:        "stateless model checking of the real engine's control API: the zero Engine handle; sequences of control calls chosen from a 10-call alphabet (Choose points, deviation-bounded) issued while running, during shutdown (second thread) and after shutdown, every schedule within the delay bound; reference state machine {empty, running, stopping, stopped} gives the expected error class of each call; Stop returning nil is checked against the ledger (pollers and listeners closed, OnShutdown ran); Register delivers exactly one result; Register with an injected epoll_ctl(ADD) failure must deliver an error",
 			Assumptions: append([]string{"Engine.Register is exercised with LeastConnections balancing only (its documentation excludes RoundRobin)", "contexts are cancelled explicitly (no wall-clock timeouts)"}, commonAssumptions...),
-			Units:       []Unit{{Name: "control", Pkg: ".", Tags: "verifmc", Test: "TestMC_C19", Instrument: true, Shards: 16, BudgetQuick: 150, BudgetThorough: 1500, Env: []string{"GOMAXPROCS=2"}}, {Name: "control-poll_opt", Pkg: ".", Tags: "verifmc,poll_opt", Tier: "thorough", Test: "TestMC_C19", Instrument: true, Shards: 16, BudgetQuick: 150, BudgetThorough: 1500, Env: []string{"GOMAXPROCS=2"}}, {Name: "control-poll_opt-quick", Pkg: ".", Tags: "verifmc,poll_opt", Test: "TestMC_C19", Instrument: true, Shards: 8, BudgetQuick: 150, BudgetThorough: 1500, Env: []string{"GOMAXPROCS=2", "MC_LIGHT=1"}}, {Name: "control-gc_opt-quick", Pkg: ".", Tags: "verifmc,gc_opt", Test: "TestMC_C19", Instrument: true, Shards: 8, BudgetQuick: 150, BudgetThorough: 1500, Env: []string{"GOMAXPROCS=2", "MC_LIGHT=1"}}, {Name: "control-gc_opt", Pkg: ".", Tags: "verifmc,gc_opt", Tier: "thorough", Test: "TestMC_C19", Instrument: true, Shards: 16, BudgetQuick: 150, BudgetThorough: 1500, Env: []string{"GOMAXPROCS=2"}}},
+			Units:       []Unit{{Name: "control", Pkg: ".", Tags: "verifmc", Test: "TestMC_C19", Instrument: true, Shards: 16, BudgetQuick: 150, BudgetThorough: 1500, Env: []string{"GOMAXPROCS=2"}}, {Name: "control-poll_opt", Pkg: ".", Tags: "verifmc,poll_opt", Tier: "thorough", Test: "TestMC_C19", Instrument: true, Shards: 16, BudgetQuick: 150, BudgetThorough: 600, Env: []string{"GOMAXPROCS=2"}}, {Name: "control-poll_opt-quick", Pkg: ".", Tags: "verifmc,poll_opt", Test: "TestMC_C19", Instrument: true, Shards: 8, BudgetQuick: 150, BudgetThorough: 1500, Env: []string{"GOMAXPROCS=2", "MC_LIGHT=1"}}, {Name: "control-gc_opt-quick", Pkg: ".", Tags: "verifmc,gc_opt", Test: "TestMC_C19", Instrument: true, Shards: 8, BudgetQuick: 150, BudgetThorough: 1500, Env: []string{"GOMAXPROCS=2", "MC_LIGHT=1"}}, {Name: "control-gc_opt", Pkg: ".", Tags: "verifmc,gc_opt", Tier: "thorough", Test: "TestMC_C19", Instrument: true, Shards: 16, BudgetQuick: 150, BudgetThorough: 600, Env: []string{"GOMAXPROCS=2"}}},
 		},
 		{
 			ID: "C20", Level: "exploration",
@@ -132,19 +132,19 @@ func checks() []Check {
 			ID: "C01", Level: "model_checking",
 			Rule:        "stateless model checking of the real engine on unix sockets: for each (LT|ET|ET+chunk, segmentation, FIN placement) every schedule within a delay bound x every per-callback consumption choice (13 operations, optional second step) and LT short-read deviation within a deviation bound; positional content oracle (byte i of the stream is a function of i), accounting consumed+InboundBuffered == bytes read(2) (ledger) at every step, views intact until the next read call, everything offered before OnClose(EOF), nothing left unread at quiescence",
 			Assumptions: append([]string{"AF_UNIX stream sockets; read buffer 1024 so that 500+600 wraps and 1500 grows the leftover ring", "short reads are injected in LT mode only (ET legitimately treats a short read as drained)"}, commonAssumptions...),
-			Units:       []Unit{{Name: "inbound", Pkg: ".", Tags: "verifmc", Test: "TestMC_C01", Instrument: true, Shards: 16, BudgetQuick: 150, BudgetThorough: 1500, Env: []string{"GOMAXPROCS=2"}}, {Name: "inbound-poll_opt", Pkg: ".", Tags: "verifmc,poll_opt", Tier: "thorough", Test: "TestMC_C01", Instrument: true, Shards: 16, BudgetQuick: 150, BudgetThorough: 1500, Env: []string{"GOMAXPROCS=2"}}, {Name: "inbound-poll_opt-quick", Pkg: ".", Tags: "verifmc,poll_opt", Test: "TestMC_C01", Instrument: true, Shards: 8, BudgetQuick: 150, BudgetThorough: 1500, Env: []string{"GOMAXPROCS=2", "MC_LIGHT=1"}}, {Name: "inbound-gc_opt-quick", Pkg: ".", Tags: "verifmc,gc_opt", Test: "TestMC_C01", Instrument: true, Shards: 8, BudgetQuick: 150, BudgetThorough: 1500, Env: []string{"GOMAXPROCS=2", "MC_LIGHT=1"}}, {Name: "inbound-gc_opt", Pkg: ".", Tags: "verifmc,gc_opt", Tier: "thorough", Test: "TestMC_C01", Instrument: true, Shards: 16, BudgetQuick: 150, BudgetThorough: 1500, Env: []string{"GOMAXPROCS=2"}}},
+			Units:       []Unit{{Name: "inbound", Pkg: ".", Tags: "verifmc", Test: "TestMC_C01", Instrument: true, Shards: 16, BudgetQuick: 150, BudgetThorough: 1500, Env: []string{"GOMAXPROCS=2"}}, {Name: "inbound-poll_opt", Pkg: ".", Tags: "verifmc,poll_opt", Tier: "thorough", Test: "TestMC_C01", Instrument: true, Shards: 16, BudgetQuick: 150, BudgetThorough: 600, Env: []string{"GOMAXPROCS=2"}}, {Name: "inbound-poll_opt-quick", Pkg: ".", Tags: "verifmc,poll_opt", Test: "TestMC_C01", Instrument: true, Shards: 8, BudgetQuick: 150, BudgetThorough: 1500, Env: []string{"GOMAXPROCS=2", "MC_LIGHT=1"}}, {Name: "inbound-gc_opt-quick", Pkg: ".", Tags: "verifmc,gc_opt", Test: "TestMC_C01", Instrument: true, Shards: 8, BudgetQuick: 150, BudgetThorough: 1500, Env: []string{"GOMAXPROCS=2", "MC_LIGHT=1"}}, {Name: "inbound-gc_opt", Pkg: ".", Tags: "verifmc,gc_opt", Tier: "thorough", Test: "TestMC_C01", Instrument: true, Shards: 16, BudgetQuick: 150, BudgetThorough: 600, Env: []string{"GOMAXPROCS=2"}}},
 		},
 		{
 			ID: "C02", Level: "model_checking",
 			Rule:        "stateless model checking of the real engine on unix sockets: for each (LT|ET, write program) every schedule within a delay bound x every kernel acceptance pattern (short write of 1/half, EAGAIN in LT) within a deviation bound, plus real back-pressure (peer stalls until the system is quiescent, payloads larger than the socket buffer); oracle: the peer receives exactly the accepted payloads, contiguous and in effect order (callback sequence merged with one goroutine's asynchronous sequence), OutboundBuffered accounting inside callbacks against the ledger, nothing stays unsent while the peer reads, one callback per accepted asynchronous write",
 			Assumptions: append([]string{"EAGAIN is injected in LT mode only (in ET no edge would follow a fake EAGAIN)", "payload j byte i = (37j+3i+1) mod 251"}, commonAssumptions...),
-			Units:       []Unit{{Name: "outbound", Pkg: ".", Tags: "verifmc", Test: "TestMC_C02", Instrument: true, Shards: 16, BudgetQuick: 150, BudgetThorough: 1500, Env: []string{"GOMAXPROCS=2"}}, {Name: "outbound-poll_opt", Pkg: ".", Tags: "verifmc,poll_opt", Tier: "thorough", Test: "TestMC_C02", Instrument: true, Shards: 16, BudgetQuick: 150, BudgetThorough: 1500, Env: []string{"GOMAXPROCS=2"}}, {Name: "outbound-poll_opt-quick", Pkg: ".", Tags: "verifmc,poll_opt", Test: "TestMC_C02", Instrument: true, Shards: 8, BudgetQuick: 150, BudgetThorough: 1500, Env: []string{"GOMAXPROCS=2", "MC_LIGHT=1"}}, {Name: "outbound-gc_opt-quick", Pkg: ".", Tags: "verifmc,gc_opt", Test: "TestMC_C02", Instrument: true, Shards: 8, BudgetQuick: 150, BudgetThorough: 1500, Env: []string{"GOMAXPROCS=2", "MC_LIGHT=1"}}, {Name: "outbound-gc_opt", Pkg: ".", Tags: "verifmc,gc_opt", Tier: "thorough", Test: "TestMC_C02", Instrument: true, Shards: 16, BudgetQuick: 150, BudgetThorough: 1500, Env: []string{"GOMAXPROCS=2"}}},
+			Units:       []Unit{{Name: "outbound", Pkg: ".", Tags: "verifmc", Test: "TestMC_C02", Instrument: true, Shards: 16, BudgetQuick: 150, BudgetThorough: 1500, Env: []string{"GOMAXPROCS=2"}}, {Name: "outbound-poll_opt", Pkg: ".", Tags: "verifmc,poll_opt", Tier: "thorough", Test: "TestMC_C02", Instrument: true, Shards: 16, BudgetQuick: 150, BudgetThorough: 600, Env: []string{"GOMAXPROCS=2"}}, {Name: "outbound-poll_opt-quick", Pkg: ".", Tags: "verifmc,poll_opt", Test: "TestMC_C02", Instrument: true, Shards: 8, BudgetQuick: 150, BudgetThorough: 1500, Env: []string{"GOMAXPROCS=2", "MC_LIGHT=1"}}, {Name: "outbound-gc_opt-quick", Pkg: ".", Tags: "verifmc,gc_opt", Test: "TestMC_C02", Instrument: true, Shards: 8, BudgetQuick: 150, BudgetThorough: 1500, Env: []string{"GOMAXPROCS=2", "MC_LIGHT=1"}}, {Name: "outbound-gc_opt", Pkg: ".", Tags: "verifmc,gc_opt", Tier: "thorough", Test: "TestMC_C02", Instrument: true, Shards: 16, BudgetQuick: 150, BudgetThorough: 600, Env: []string{"GOMAXPROCS=2"}}},
 		},
 		{
 			ID: "C04", Level: "model_checking",
 			Rule:        "stateless model checking of the real engine (instrumented, real unix sockets/epoll) under the cooperative scheduler: every interleaving up to a preemption bound of main, event loops, peers and user threads over a catalogue of connection histories; an execution is one evaluation; per-connection lifecycle monitor",
 			Assumptions: append([]string{"AF_UNIX stream sockets (synchronous delivery/EOF/HUP), this kernel's epoll semantics", "connection identity = the Conn value handed to OnOpen"}, commonAssumptions...),
-			Units:       []Unit{{Name: "life", Pkg: ".", Tags: "verifmc", Test: "TestMC_C04", Instrument: true, Shards: 16, BudgetQuick: 150, BudgetThorough: 1500, Env: []string{"GOMAXPROCS=2"}}, {Name: "life-poll_opt", Pkg: ".", Tags: "verifmc,poll_opt", Tier: "thorough", Test: "TestMC_C04", Instrument: true, Shards: 16, BudgetQuick: 150, BudgetThorough: 1500, Env: []string{"GOMAXPROCS=2"}}, {Name: "life-poll_opt-quick", Pkg: ".", Tags: "verifmc,poll_opt", Test: "TestMC_C04", Instrument: true, Shards: 16, BudgetQuick: 150, BudgetThorough: 1500, Env: []string{"GOMAXPROCS=2", "MC_PB=1"}}, {Name: "life-gc_opt-quick", Pkg: ".", Tags: "verifmc,gc_opt", Test: "TestMC_C04", Instrument: true, Shards: 16, BudgetQuick: 150, BudgetThorough: 1500, Env: []string{"GOMAXPROCS=2", "MC_PB=1"}}, {Name: "life-gc_opt", Pkg: ".", Tags: "verifmc,gc_opt", Tier: "thorough", Test: "TestMC_C04", Instrument: true, Shards: 16, BudgetQuick: 150, BudgetThorough: 1500, Env: []string{"GOMAXPROCS=2"}}},
+			Units:       []Unit{{Name: "life", Pkg: ".", Tags: "verifmc", Test: "TestMC_C04", Instrument: true, Shards: 16, BudgetQuick: 150, BudgetThorough: 1500, Env: []string{"GOMAXPROCS=2"}}, {Name: "life-poll_opt", Pkg: ".", Tags: "verifmc,poll_opt", Tier: "thorough", Test: "TestMC_C04", Instrument: true, Shards: 16, BudgetQuick: 150, BudgetThorough: 600, Env: []string{"GOMAXPROCS=2"}}, {Name: "life-poll_opt-quick", Pkg: ".", Tags: "verifmc,poll_opt", Test: "TestMC_C04", Instrument: true, Shards: 16, BudgetQuick: 150, BudgetThorough: 1500, Env: []string{"GOMAXPROCS=2", "MC_PB=1"}}, {Name: "life-gc_opt-quick", Pkg: ".", Tags: "verifmc,gc_opt", Test: "TestMC_C04", Instrument: true, Shards: 16, BudgetQuick: 150, BudgetThorough: 1500, Env: []string{"GOMAXPROCS=2", "MC_PB=1"}}, {Name: "life-gc_opt", Pkg: ".", Tags: "verifmc,gc_opt", Tier: "thorough", Test: "TestMC_C04", Instrument: true, Shards: 16, BudgetQuick: 150, BudgetThorough: 600, Env: []string{"GOMAXPROCS=2"}}},
 		},
 		{
 			ID: "C05", Level: "model_checking",
@@ -161,19 +161,19 @@ func checks() []Check {
 			ID: "C06", Level: "model_checking",
 			Rule:        "stateless model checking of the real engine: every schedule within a delay bound of shutdown requested from every documented source at every reachable moment of short runs; virtual time (timers fire only when nothing else can run); oracle: Run/Client.Stop returns nil within the step horizon, OnShutdown exactly once, every opened connection closed exactly once before the return, nothing runs afterwards (the scheduler keeps going until no thread is enabled and all timers have fired)",
 			Assumptions: append([]string{"bounded time = bounded scheduler steps under the fairness rule; wall-clock time is not observed"}, commonAssumptions...),
-			Units:       []Unit{{Name: "shutdown", Pkg: ".", Tags: "verifmc", Test: "TestMC_C06", Instrument: true, Shards: 16, BudgetQuick: 150, BudgetThorough: 1500, Env: []string{"GOMAXPROCS=2"}}, {Name: "shutdown-poll_opt", Pkg: ".", Tags: "verifmc,poll_opt", Tier: "thorough", Test: "TestMC_C06", Instrument: true, Shards: 16, BudgetQuick: 150, BudgetThorough: 1500, Env: []string{"GOMAXPROCS=2"}}, {Name: "shutdown-poll_opt-quick", Pkg: ".", Tags: "verifmc,poll_opt", Test: "TestMC_C06", Instrument: true, Shards: 8, BudgetQuick: 150, BudgetThorough: 1500, Env: []string{"GOMAXPROCS=2", "MC_LIGHT=1"}}, {Name: "shutdown-gc_opt-quick", Pkg: ".", Tags: "verifmc,gc_opt", Test: "TestMC_C06", Instrument: true, Shards: 8, BudgetQuick: 150, BudgetThorough: 1500, Env: []string{"GOMAXPROCS=2", "MC_LIGHT=1"}}, {Name: "shutdown-gc_opt", Pkg: ".", Tags: "verifmc,gc_opt", Tier: "thorough", Test: "TestMC_C06", Instrument: true, Shards: 16, BudgetQuick: 150, BudgetThorough: 1500, Env: []string{"GOMAXPROCS=2"}}},
+			Units:       []Unit{{Name: "shutdown", Pkg: ".", Tags: "verifmc", Test: "TestMC_C06", Instrument: true, Shards: 16, BudgetQuick: 150, BudgetThorough: 1500, Env: []string{"GOMAXPROCS=2"}}, {Name: "shutdown-poll_opt", Pkg: ".", Tags: "verifmc,poll_opt", Tier: "thorough", Test: "TestMC_C06", Instrument: true, Shards: 16, BudgetQuick: 150, BudgetThorough: 600, Env: []string{"GOMAXPROCS=2"}}, {Name: "shutdown-poll_opt-quick", Pkg: ".", Tags: "verifmc,poll_opt", Test: "TestMC_C06", Instrument: true, Shards: 8, BudgetQuick: 150, BudgetThorough: 1500, Env: []string{"GOMAXPROCS=2", "MC_LIGHT=1"}}, {Name: "shutdown-gc_opt-quick", Pkg: ".", Tags: "verifmc,gc_opt", Test: "TestMC_C06", Instrument: true, Shards: 8, BudgetQuick: 150, BudgetThorough: 1500, Env: []string{"GOMAXPROCS=2", "MC_LIGHT=1"}}, {Name: "shutdown-gc_opt", Pkg: ".", Tags: "verifmc,gc_opt", Tier: "thorough", Test: "TestMC_C06", Instrument: true, Shards: 16, BudgetQuick: 150, BudgetThorough: 600, Env: []string{"GOMAXPROCS=2"}}},
 		},
 		{
 			ID: "C07", Level: "model_checking",
 			Rule:        "same executions as C04, evaluated with the descriptor ledger kept by the system-call shim: ownership of every fd number, framework calls on closed or foreign descriptors, double close, leaks at the return of Run, unix-socket file removal",
 			Assumptions: append([]string{"descriptors created by package net (Dial/Enroll) are outside the ledger"}, commonAssumptions...),
-			Units:       []Unit{{Name: "fd", Pkg: ".", Tags: "verifmc", Test: "TestMC_C07", Instrument: true, Shards: 16, BudgetQuick: 150, BudgetThorough: 1500, Env: []string{"GOMAXPROCS=2"}}, {Name: "fd-poll_opt", Pkg: ".", Tags: "verifmc,poll_opt", Tier: "thorough", Test: "TestMC_C07", Instrument: true, Shards: 16, BudgetQuick: 150, BudgetThorough: 1500, Env: []string{"GOMAXPROCS=2"}}, {Name: "fd-poll_opt-quick", Pkg: ".", Tags: "verifmc,poll_opt", Test: "TestMC_C07", Instrument: true, Shards: 8, BudgetQuick: 150, BudgetThorough: 1500, Env: []string{"GOMAXPROCS=2", "MC_LIGHT=1"}}, {Name: "fd-gc_opt-quick", Pkg: ".", Tags: "verifmc,gc_opt", Test: "TestMC_C07", Instrument: true, Shards: 8, BudgetQuick: 150, BudgetThorough: 1500, Env: []string{"GOMAXPROCS=2", "MC_LIGHT=1"}}, {Name: "fd-gc_opt", Pkg: ".", Tags: "verifmc,gc_opt", Tier: "thorough", Test: "TestMC_C07", Instrument: true, Shards: 16, BudgetQuick: 150, BudgetThorough: 1500, Env: []string{"GOMAXPROCS=2"}}},
+			Units:       []Unit{{Name: "fd", Pkg: ".", Tags: "verifmc", Test: "TestMC_C07", Instrument: true, Shards: 16, BudgetQuick: 150, BudgetThorough: 1500, Env: []string{"GOMAXPROCS=2"}}, {Name: "fd-poll_opt", Pkg: ".", Tags: "verifmc,poll_opt", Tier: "thorough", Test: "TestMC_C07", Instrument: true, Shards: 16, BudgetQuick: 150, BudgetThorough: 600, Env: []string{"GOMAXPROCS=2"}}, {Name: "fd-poll_opt-quick", Pkg: ".", Tags: "verifmc,poll_opt", Test: "TestMC_C07", Instrument: true, Shards: 8, BudgetQuick: 150, BudgetThorough: 1500, Env: []string{"GOMAXPROCS=2", "MC_LIGHT=1"}}, {Name: "fd-gc_opt-quick", Pkg: ".", Tags: "verifmc,gc_opt", Test: "TestMC_C07", Instrument: true, Shards: 8, BudgetQuick: 150, BudgetThorough: 1500, Env: []string{"GOMAXPROCS=2", "MC_LIGHT=1"}}, {Name: "fd-gc_opt", Pkg: ".", Tags: "verifmc,gc_opt", Tier: "thorough", Test: "TestMC_C07", Instrument: true, Shards: 16, BudgetQuick: 150, BudgetThorough: 600, Env: []string{"GOMAXPROCS=2"}}},
 		},
 		{
 			ID: "C08", Level: "model_checking",
 			Rule:        "stateless model checking of the real engine with UDP listeners on loopback: 1-2 senders x 1-3 datagrams, every handler choice (consumption and reply mode, Choose points) within a deviation bound and every schedule within a delay bound, plus a size sweep (one datagram per size) on the default schedule; payloads carry sender and sequence number; oracle: exactly one OnTraffic per datagram showing exactly its payload, RemoteAddr == sender's bound address, each reply arrives as exactly one datagram at exactly the addressed socket",
 			Assumptions: append([]string{"loopback UDP delivery is synchronous with sendto on this kernel; a bounded real-time settle step only guards against deferral to a softirq thread", "with 2 loops the kernel's SO_REUSEPORT hash decides the receiving loop"}, commonAssumptions...),
-			Units:       []Unit{{Name: "udp", Pkg: ".", Tags: "verifmc", Test: "TestMC_C08", Instrument: true, Shards: 16, BudgetQuick: 150, BudgetThorough: 1500, Env: []string{"GOMAXPROCS=2"}}, {Name: "udp-poll_opt", Pkg: ".", Tags: "verifmc,poll_opt", Tier: "thorough", Test: "TestMC_C08", Instrument: true, Shards: 16, BudgetQuick: 150, BudgetThorough: 1500, Env: []string{"GOMAXPROCS=2"}}, {Name: "udp-poll_opt-quick", Pkg: ".", Tags: "verifmc,poll_opt", Test: "TestMC_C08", Instrument: true, Shards: 8, BudgetQuick: 150, BudgetThorough: 1500, Env: []string{"GOMAXPROCS=2", "MC_LIGHT=1"}}, {Name: "udp-gc_opt-quick", Pkg: ".", Tags: "verifmc,gc_opt", Test: "TestMC_C08", Instrument: true, Shards: 8, BudgetQuick: 150, BudgetThorough: 1500, Env: []string{"GOMAXPROCS=2", "MC_LIGHT=1"}}, {Name: "udp-gc_opt", Pkg: ".", Tags: "verifmc,gc_opt", Tier: "thorough", Test: "TestMC_C08", Instrument: true, Shards: 16, BudgetQuick: 150, BudgetThorough: 1500, Env: []string{"GOMAXPROCS=2"}}},
+			Units:       []Unit{{Name: "udp", Pkg: ".", Tags: "verifmc", Test: "TestMC_C08", Instrument: true, Shards: 16, BudgetQuick: 150, BudgetThorough: 1500, Env: []string{"GOMAXPROCS=2"}}, {Name: "udp-poll_opt", Pkg: ".", Tags: "verifmc,poll_opt", Tier: "thorough", Test: "TestMC_C08", Instrument: true, Shards: 16, BudgetQuick: 150, BudgetThorough: 600, Env: []string{"GOMAXPROCS=2"}}, {Name: "udp-poll_opt-quick", Pkg: ".", Tags: "verifmc,poll_opt", Test: "TestMC_C08", Instrument: true, Shards: 8, BudgetQuick: 150, BudgetThorough: 1500, Env: []string{"GOMAXPROCS=2", "MC_LIGHT=1"}}, {Name: "udp-gc_opt-quick", Pkg: ".", Tags: "verifmc,gc_opt", Test: "TestMC_C08", Instrument: true, Shards: 8, BudgetQuick: 150, BudgetThorough: 1500, Env: []string{"GOMAXPROCS=2", "MC_LIGHT=1"}}, {Name: "udp-gc_opt", Pkg: ".", Tags: "verifmc,gc_opt", Tier: "thorough", Test: "TestMC_C08", Instrument: true, Shards: 16, BudgetQuick: 150, BudgetThorough: 600, Env: []string{"GOMAXPROCS=2"}}},
 		},
 		{
 			ID: "C09", Level: "model_checking",
